@@ -54,6 +54,13 @@ FrameSeriesOpOK(fn, a, s, res) ==
   /\ \A i \in 1..Len(res.index), j \in 1..Len(res.columns) :
         res.cols[j][i] = OpVal(fn, Lookup2(a, res.index[i], res.columns[j]), Lookup1(s.index, s.vals, res.columns[j]))
   /\ (a.columns = s.index) => res.columns = a.columns
+(* Frame.via_T op Series: the Series is aligned with the INDEX (every column meets the same Series) *)
+FrameSeriesTOpOK(fn, a, s, res) ==
+  /\ res.columns = a.columns
+  /\ Unique(res.index) /\ AsSet(res.index) = AsSet(a.index) \cup AsSet(s.index)
+  /\ \A i \in 1..Len(res.index), j \in 1..Len(res.columns) :
+        res.cols[j][i] = OpVal(fn, Lookup2(a, res.index[i], res.columns[j]), Lookup1(s.index, s.vals, res.index[i]))
+  /\ (a.index = s.index) => res.index = a.index
 ScalarOpOK(fn, a, v, res, reflected) ==
   /\ res.index = a.index /\ res.columns = a.columns
   /\ \A i \in 1..Len(res.index), j \in 1..Len(res.columns) :
